@@ -11,8 +11,10 @@ From DaspGen Require Import RingGen.
 Import ListNotations.
 Open Scope Z_scope.
 
-Definition gbstep (b : bounded Z) (o0 : zop) : res (bounded Z * list Z) :=
-  let o := bnorm b o0 in
+(* NO index normalisation here (Ring/RingRun.v's bnorm/fnorm are proved invisible for the HAND model only; a model
+   regenerated from an edited source may well tell i from i mod len): lib/props/c06.py keeps the cases with
+   indices too large for a unary nat out of this runner. *)
+Definition gbstep (b : bounded Z) (o : zop) : res (bounded Z * list Z) :=
   match to_op o with
   | None => UB
   | Some p =>
@@ -42,7 +44,7 @@ Definition gbrun_case (s l : Z) (d : list Z) (ops : list zop) : list (list Z) :=
 Fixpoint gfrun_z (f : fixed Z) (ops : list zop) : list (list Z) :=
   match ops with
   | [] => []
-  | o :: t => match to_fop (fnorm f o) with
+  | o :: t => match to_fop o with
               | None => [[-2]]
               | Some p => match gen_fstep f p with
                           | Ok (f', v) => enc v :: gfrun_z f' t
